@@ -2,7 +2,7 @@
 #include "props/C07.hpp"
 using namespace c07;
 
-struct Case { bool serial, mem16, guaranteed; Bytes raw; std::string kind = "none"; int mode = 0; };   // mode: see c07::judge (1: block one octet too small, 2: allocation fails)
+struct Case { bool serial, mem16, guaranteed; Bytes raw; std::string kind = "none"; int mode = 0; };   // mode: see c07::judge (1: block one octet too small, 2: allocation fails, 3: allocation fails on two instances, the second served from the first's source driver)
 static Case g_cur;
 static std::string ser_case(const Case &c) { return vp::fmt("frame %d %d %d %s %s %d\n", (int)c.serial, (int)c.mem16, (int)c.guaranteed, c.raw.empty() ? "-" : vp::hex(c.raw).c_str(), c.kind.c_str(), c.mode); }
 
@@ -10,7 +10,7 @@ static bool run_case(Case c, const char *cls) {
     if (c.kind == "none" || c.kind.empty()) c.kind = cls;
     g_cur = c;
     Outcome o = judge(c.serial, c.mem16, c.raw, c.guaranteed, 64, c.mode);
-    if (c.mode) { vp::count(); if (!o.key.empty()) { vp::fail(o.key, o.msg, ser_case(c)); return false; } vp::cls(c.mode == 1 ? "frame-does-not-fit-the-block" : "allocation-fails"); if (o.ref == rp::V_BAD_HDCRC) vp::nontrivial(vp::fnv(c.raw.data(), c.raw.size(), 900 + c.mode)); return true; }
+    if (c.mode) { vp::count(); if (!o.key.empty()) { vp::fail(o.key, o.msg, ser_case(c)); return false; } vp::cls(c.mode == 1 ? "frame-does-not-fit-the-block" : c.mode == 2 ? "allocation-fails" : "allocation-fails:second-instance-served-meanwhile"); if (o.ref == rp::V_BAD_HDCRC) vp::nontrivial(vp::fnv(c.raw.data(), c.raw.size(), 900 + c.mode)); return true; }
     vp::count();
     if (!o.key.empty()) { vp::fail(o.key, o.msg, ser_case(c)); return false; }
     if (o.collision) {
@@ -64,7 +64,7 @@ static void run() {
     auto &a = vp::args();
     vp::CaseScope scope([] { return ser_case(g_cur); });
     bool T = a.thorough();
-    vp::stats().rule = vp::fmt("enum: corpus of %zu reference-encoded serial frames (every type x 8/16-bit x payload sizes 0,1,2,3,8,31); on each: every single-bit flip (also with a receive block one octet too small and with a failing allocation), every two-bit flip and every burst "
+    vp::stats().rule = vp::fmt("enum: corpus of %zu reference-encoded serial frames (every type x 8/16-bit x payload sizes 0,1,2,3,8,31); on each: every single-bit flip (also with a receive block one octet too small, with a failing allocation, and with a failing allocation while the source driver serves a second instance - same exhausted pool - in the middle of the frame), every two-bit flip and every burst "
                                "of length 2..16 (first and last bit set, %s interior patterns; bits numbered in UART wire order (LSB first) and also MSB first) at every bit offset behind the first header word, every truncation length, extensions by 1..4 octets; "
                                "every single-bit flip of the header of frames without (or with only one) checksum, judged by the reference reading; plus frames with every combination of the three option bits x right/wrong header CRC x right/wrong payload CRC x payload length deltas on both transports, and random "
                                "octet strings; oracle = reference decoder verdict, empty back-end log, no ACK, prescribed meta / error reply", corpus().size(), T ? "all" : "64 random");
@@ -80,7 +80,7 @@ static void run() {
             if (idx++ % a.nshards == a.shard) run_case({true, mem16, false, raw}, "undamaged");
         }
         for (size_t b = 0; b < nbits; b++) { if (idx++ % a.nshards != a.shard) continue; Bytes d = raw; flip(d, b); run_case({true, mem16, true, d}, "single-bit");
-            for (int mode = 1; mode <= 2; mode++) { Case c{true, mem16, true, d}; c.kind = "single-bit"; c.mode = mode; run_case(c, "single-bit"); } }
+            for (int mode = 1; mode <= 3; mode++) { Case c{true, mem16, true, d}; c.kind = "single-bit"; c.mode = mode; run_case(c, "single-bit"); } }
 #ifdef VP_LIGHT
         if (0)   // additional build configurations: single-bit, truncation, extension and option phases only
 #endif
